@@ -336,6 +336,8 @@ def main(modname):
         violations = []
         # (1) stored reproducers of listed findings
         for e in load_known(check.id):
+            if e.get("replay") is None:
+                continue
             res = check.run_case(e["replay"])
             hit = [d for d in res.disagreements]
             if e.get("status") == "open":
